@@ -46,8 +46,10 @@ BaseOps(s) ==
   \cup {OpRec("clone", "", 0, h, g, 0, 0, <<>>, <<>>, {}) : h \in IF K("clone") THEN nd ELSE {}, g \in lv}
   \cup {OpRec("collect", v, 0, h, 0, n, m, <<>>, x, {}) : h \in IF K("collect") THEN nd ELSE {}, v \in {"chars", "strs"},
             n \in Hints \ {OVERFLOW}, x \in ItemSeqs, m \in {0}} \* panic positions added below
+  \cup {OpRec("display", "", t, h, 0, n, 0, <<>>, x, {}) : h \in IF K("display") THEN nd ELSE {}, x \in ItemSeqs, n \in 0..3, t \in {0, 1}}
   \cup {OpRec("clone_from", "", 0, h, g, 0, 0, <<>>, <<>>, {}) : h \in IF K("clone_from") THEN lv ELSE {}, g \in lv} 
   \cup {OpRec("drop", "", 0, h, 0, 0, 0, <<>>, <<>>, {}) : h \in IF K("drop") THEN lv ELSE {}}
+  \cup {OpRec("compare", "", 0, h, g, 0, 0, <<>>, <<>>, {}) : h \in IF K("compare") THEN lv ELSE {}, g \in lv}
   \cup {OpRec("reserve", "", 0, h, 0, n, 0, <<>>, <<>>, {}) : h \in IF K("reserve") THEN lv ELSE {}, n \in Caps}
   \cup {OpRec("shrink_to", "", 0, h, 0, n, 0, <<>>, <<>>, {}) : h \in IF K("shrink_to") THEN lv ELSE {}, n \in Caps \ {OVERFLOW}}
   \cup {OpRec("push_str", "", 0, h, 0, 0, 0, a, <<>>, {}) : h \in IF K("push_str") THEN lv ELSE {}, a \in StrArgs}
@@ -63,10 +65,11 @@ BaseOps(s) ==
 \* overflow needs a non-empty target; clone_from needs two different handles
 Sane(s, o) ==
   /\ o.n = OVERFLOW => (o.op \in {"reserve", "extend"} /\ Len(TextOf(s, o.h)) > 0)
-  /\ o.op = "clone_from" => o.h # o.g
+  /\ o.op \in {"clone_from", "compare"} => o.h # o.g
   /\ (o.op \in {"extend", "collect"} /\ o.v = "strs") => o.n = 0
+  /\ o.op = "display" => o.n <= Len(o.x) + 1
 
-WithPanics(o) == IF o.op \in {"extend", "collect"} THEN {[o EXCEPT !.m = m] : m \in PanicPos(o.x)} ELSE {o}
+WithPanics(o) == IF o.op \in {"extend", "collect", "display"} THEN {[o EXCEPT !.m = m] : m \in PanicPos(o.x)} ELSE {o}
 
 \* injected allocation failures: each request the call would issue, singly (and in pairs)
 FailSets(s, o) ==
@@ -76,7 +79,7 @@ FailSets(s, o) ==
            two == IF FailMode = 2 THEN {{j, k} : j \in 1..n0, k \in 1..(n0 + 1)} ELSE {} IN
        {{}} \cup one \cup two
 WithFailures(s, o) ==
-  UNION {IF f = {} /\ ~IsSym(o.n) THEN {o} ELSE {[o EXCEPT !.f = f, !.t = t] : t \in {0, 1}} : f \in FailSets(s, o)}
+  UNION {IF (f = {} /\ ~IsSym(o.n)) \/ o.op = "display" THEN {[o EXCEPT !.f = f]} ELSE {[o EXCEPT !.f = f, !.t = t] : t \in {0, 1}} : f \in FailSets(s, o)}
 
 Ops(s) == UNION {UNION {WithFailures(s, o2) : o2 \in WithPanics(o)} : o \in {b \in BaseOps(s) : Sane(s, b)}}
 
